@@ -521,7 +521,10 @@ func vfGenBody(t *rapid.T, label string, response bool) vfBodySpec {
 		isEnd := response && flags&0x82 != 0
 		if isEnd {
 			var content string
-			switch rapid.IntRange(0, 3).Draw(t, label+"-endkind") {
+			switch rapid.IntRange(0, 4).Draw(t, label+"-endkind") {
+			case 4:
+				// a large one (long error details / metadata values): more than any buffer the tracer might use
+				content = `{"metadata":{"x-big":["` + strings.Repeat("0123456789abcdef", rapid.IntRange(3000, 9000).Draw(t, label+"-endbig")) + `"]}}`
 			case 0:
 				content = `{"error":{"code":"internal","message":"boom"},"metadata":{"x-a":["1"]}}`
 			case 1:
